@@ -1,8 +1,199 @@
 import DarkluaModel.Util.Sexp
-/-! Line-protocol handlers for property C14 (stub: nothing modelled yet). -/
-namespace DarkluaModel.C14
+import DarkluaModel.C14.Model
+import DarkluaModel.C14.Spec
+import DarkluaModel.C14.Lemmas
+/-!
+Line-protocol handlers for property C14.
 
-def handle (op : String) (_args : List String) : String :=
-  "unknown-op " ++ op
+* `c14.ser <data>`   → `<expr>`            the model `toExpr` (what the theorems are about)
+* `c14.H <data>`     → `true|false`        hypothesis `H14` of `serialize_denotes_partial`
+* `c14.J <data>`     → `true|false`        hypothesis `JsonLike` of `serialize_denotes_json`
+* `c14.eval <expr>`  → `(ok <val>)|(err <class>)`   the reference semantics `Spec.evalExpr`
+* `c14.ident <hex>`  → `<model> <spec>`    `isValidIdentifier` / `Spec.isLuaIdent`
+* `c14.i2f <int>`    → `f<16 hex>`         `intToF64`
+* `c14.near <int> f<16 hex>` → `true|false`  `Spec.nearestEven`
+
+data ::= null | (bool true|false) | (i64 int) | (u64 nat) | (f64 f16hex) | (str xHEX) | (bytes xHEX)
+       | (some data) | (seq data*) | (map (data data)*) | (variant xHEX data)
+expr ::= nil | true | false | (num f16hex) | (hex nat) | (str xHEX) | (table entry*)
+       | (call expr (args expr*)) | (field expr xHEX) | (var xHEX) | (neg expr) | (div expr expr) | (paren expr)
+entry ::= (pos expr) | (named xHEX expr) | (keyed expr expr)
+val  ::= nil | (bool b) | (num f16hex) | (str xHEX) | (table (key val)*) ; key ::= (int i) | (flt f16hex) | (str xHEX) | (bool b)
+-/
+namespace DarkluaModel.C14
+open DarkluaModel DarkluaModel.C14.Spec
+
+def bitsToWire (b : Nat) : String := "f" ++ natToHex16 b
+
+def wireToBits? (s : String) : Option Nat :=
+  match s.toList with
+  | 'f' :: rest => if rest.length == 16 then hexNat? rest else none
+  | _ => none
+
+partial def dataOfSexp : Sexp → Option Data
+  | .atom "null" => some .null
+  | .list [.atom "bool", b] => b.bool?.map Data.bool
+  | .list [.atom "i64", v] => v.int?.map Data.i64
+  | .list [.atom "u64", v] => v.nat?.map Data.u64
+  | .list [.atom "f64", .atom w] => (wireToBits? w).map Data.f64
+  | .list [.atom "str", .atom h] => (hexToBytes? h).map Data.str
+  | .list [.atom "bytes", .atom h] => (hexToBytes? h).map Data.bytes
+  | .list [.atom "some", d] => (dataOfSexp d).map Data.some
+  | .list [.atom "variant", .atom h, d] => do
+    let name ← hexToBytes? h
+    let d ← dataOfSexp d
+    pure (.variant name d)
+  | .list (.atom "seq" :: xs) => (seqOf xs).map Data.seq
+  | .list (.atom "map" :: kvs) => (pairsOf kvs).map Data.map
+  | _ => none
+where
+  seqOf : List Sexp → Option DataList
+    | [] => some .nil
+    | x :: rest => do
+      let d ← dataOfSexp x
+      let tl ← seqOf rest
+      pure (.cons d tl)
+  pairsOf : List Sexp → Option PairList
+    | [] => some .nil
+    | .list [k, v] :: rest => do
+      let k ← dataOfSexp k
+      let v ← dataOfSexp v
+      let tl ← pairsOf rest
+      pure (.cons k v tl)
+    | _ => none
+
+mutual
+partial def exprToSexp : Expr → Sexp
+  | .nil => .atom "nil"
+  | .true => .atom "true"
+  | .false => .atom "false"
+  | .num b => .list [.atom "num", .atom (bitsToWire b)]
+  | .hex v => .list [.atom "hex", .atom (toString v)]
+  | .str s => .list [.atom "str", .atom (bytesToHex s)]
+  | .table es => .list (.atom "table" :: entriesToSexp es)
+  | .call f args => .list [.atom "call", exprToSexp f, .list (.atom "args" :: argsToSexp args)]
+  | .field e n => .list [.atom "field", exprToSexp e, .atom (bytesToHex n)]
+  | .var n => .list [.atom "var", .atom (bytesToHex n)]
+  | .neg e => .list [.atom "neg", exprToSexp e]
+  | .div a b => .list [.atom "div", exprToSexp a, exprToSexp b]
+  | .paren e => .list [.atom "paren", exprToSexp e]
+partial def entriesToSexp : EntryList → List Sexp
+  | .nil => []
+  | .pos e tl => .list [.atom "pos", exprToSexp e] :: entriesToSexp tl
+  | .named k e tl => .list [.atom "named", .atom (bytesToHex k), exprToSexp e] :: entriesToSexp tl
+  | .keyed k e tl => .list [.atom "keyed", exprToSexp k, exprToSexp e] :: entriesToSexp tl
+partial def argsToSexp : ExprList → List Sexp
+  | .nil => []
+  | .cons e tl => exprToSexp e :: argsToSexp tl
+end
+
+partial def exprOfSexp : Sexp → Option Expr
+  | .atom "nil" => some .nil
+  | .atom "true" => some .true
+  | .atom "false" => some .false
+  | .list [.atom "num", .atom w] => (wireToBits? w).map Expr.num
+  | .list [.atom "hex", v] => v.nat?.map Expr.hex
+  | .list [.atom "str", .atom h] => (hexToBytes? h).map Expr.str
+  | .list (.atom "table" :: es) => (entriesOf es).map Expr.table
+  | .list [.atom "call", f, .list (.atom "args" :: args)] => do
+    let f ← exprOfSexp f
+    let args ← argsOf args
+    pure (.call f args)
+  | .list [.atom "field", e, .atom h] => do
+    let e ← exprOfSexp e
+    let n ← hexToBytes? h
+    pure (.field e n)
+  | .list [.atom "var", .atom h] => (hexToBytes? h).map Expr.var
+  | .list [.atom "neg", e] => (exprOfSexp e).map Expr.neg
+  | .list [.atom "div", a, b] => do
+    let a ← exprOfSexp a
+    let b ← exprOfSexp b
+    pure (.div a b)
+  | .list [.atom "paren", e] => (exprOfSexp e).map Expr.paren
+  | _ => none
+where
+  entriesOf : List Sexp → Option EntryList
+    | [] => some .nil
+    | .list [.atom "pos", e] :: rest => do
+      let e ← exprOfSexp e
+      let tl ← entriesOf rest
+      pure (.pos e tl)
+    | .list [.atom "named", .atom h, e] :: rest => do
+      let k ← hexToBytes? h
+      let e ← exprOfSexp e
+      let tl ← entriesOf rest
+      pure (.named k e tl)
+    | .list [.atom "keyed", k, e] :: rest => do
+      let k ← exprOfSexp k
+      let e ← exprOfSexp e
+      let tl ← entriesOf rest
+      pure (.keyed k e tl)
+    | _ => none
+  argsOf : List Sexp → Option ExprList
+    | [] => some .nil
+    | x :: rest => do
+      let e ← exprOfSexp x
+      let tl ← argsOf rest
+      pure (.cons e tl)
+
+def keyToSexp : Key → Sexp
+  | .int i => .list [.atom "int", .atom (toString i)]
+  | .flt b => .list [.atom "flt", .atom (bitsToWire b)]
+  | .str s => .list [.atom "str", .atom (bytesToHex s)]
+  | .bool b => .list [.atom "bool", Sexp.ofBool b]
+
+mutual
+partial def valToSexp : Val → Sexp
+  | .nil => .atom "nil"
+  | .bool b => .list [.atom "bool", Sexp.ofBool b]
+  | .num b => .list [.atom "num", .atom (bitsToWire b)]
+  | .str s => .list [.atom "str", .atom (bytesToHex s)]
+  | .table t => .list (.atom "table" :: mapToSexp t)
+partial def mapToSexp : ValMap → List Sexp
+  | .nil => []
+  | .cons k v tl => .list [keyToSexp k, valToSexp v] :: mapToSexp tl
+end
+
+def errName : Err → String
+  | .nilIndex => "nilIndex"
+  | .nanIndex => "nanIndex"
+  | .unsupported => "unsupported"
+
+def handle (op : String) (args : List String) : String :=
+  -- S-expressions contain spaces: the dispatcher has split them, join them back
+  let joined := " ".intercalate args
+  match op, args with
+  | "ser", _ :: _ =>
+    match (Sexp.parse joined).bind dataOfSexp with
+    | some d => toString (exprToSexp (toExpr d))
+    | none => "bad-data"
+  | "H", _ :: _ =>
+    match (Sexp.parse joined).bind dataOfSexp with
+    | some d => toString (H14 d)
+    | none => "bad-data"
+  | "J", _ :: _ =>
+    match (Sexp.parse joined).bind dataOfSexp with
+    | some d => toString (JsonLike d)
+    | none => "bad-data"
+  | "eval", _ :: _ =>
+    match (Sexp.parse joined).bind exprOfSexp with
+    | some e =>
+      match evalExpr e with
+      | .ok v => "(ok " ++ toString (valToSexp v) ++ ")"
+      | .error err => "(err " ++ errName err ++ ")"
+    | none => "bad-expr"
+  | "ident", [h] =>
+    match hexToBytes? h with
+    | some s => toString (isValidIdentifier s) ++ " " ++ toString (isLuaIdent s)
+    | none => "bad-bytes"
+  | "i2f", [v] =>
+    match v.toInt? with
+    | some v => bitsToWire (intToF64 v)
+    | none => "bad-int"
+  | "near", [v, w] =>
+    match v.toInt?, wireToBits? w with
+    | some v, some b => toString (nearestEven v b)
+    | _, _ => "bad-args"
+  | _, _ => "unknown-op " ++ op
 
 end DarkluaModel.C14
